@@ -38,8 +38,12 @@ def Expr.line (e : Expr) : Nat := e.tok.errorLine
 def lookupNat {α} (m : List (Nat × α)) (k : Nat) : Option α :=
   (m.find? fun p => p.1 == k).map (·.2)
 
+/-- the number that stands for a registered nil function value: the name is taken, nothing is callable -/
+def nilFn : Nat := 9
+
+/-- `hasCustomFunc`: a function is registered under the name and it is not nil -/
 def lookupCustom (c : Ctx) (ty : VType) (name : Bytes) : Option Nat :=
-  (c.custom.find? fun p => p.1.1 == ty && p.1.2 == name).map (·.2)
+  ((c.custom.find? fun p => p.1.1 == ty && p.1.2 == name).map (·.2)).bind fun fid => if fid == nilFn then none else some fid
 
 def boolV (x : Bool) : Val := .bool x
 
